@@ -37,13 +37,13 @@ pub fn run(run: &mut Run) {
 
 fn case<S: Shape>(r: &mut Rng, acc: &mut Acc, index: u64, verbose: bool) {
     let kinds = &S::KINDS[..S::N_ANIM];
-    let spec = gen_tl(r, kinds, &GenOpts { neg_delay: true, ..GenOpts::default() });
+    let spec = gen_tl(r, kinds, &GenOpts { neg_delay: true, shuffle: true, ..GenOpts::default() });
     // merged: 0 = plain timeline, 1 = the same timeline wrapped in a MergedTimeline, 2 = a merged timeline of
     // two components with disjoint property sets and independent timing (start_with must reach both)
     let merged = if S::N_ANIM >= 2 && r.chance(1, 5) { 2 } else if r.chance(1, 5) { 1 } else { 0 };
     let mut specs = vec![spec];
     if merged == 2 {
-        let mut other = gen_tl(r, kinds, &GenOpts { neg_delay: true, ..GenOpts::default() });
+        let mut other = gen_tl(r, kinds, &GenOpts { neg_delay: true, shuffle: true, ..GenOpts::default() });
         for f in 0..S::N_ANIM {
             for k in specs[0].kfs.iter_mut() {
                 if f % 2 == 1 { k.vals[f] = None; }
